@@ -73,6 +73,14 @@ func Map[K comparable, V any](m map[K]V) iter.Seq2[K, V] {
 				idx[i] = i
 			}
 			sort.SliceStable(idx, func(a, b int) bool { return strs[idx[a]] < strs[idx[b]] })
+			for i := 1; i < len(idx); i++ {
+				if strs[idx[i]] == strs[idx[i-1]] && strs[idx[i]] != "" {
+					// two distinct keys of one map that print identically: their relative order is the
+					// runtime's, nothing downstream can tell them apart, so output order follows the map seed
+					r.Flag("map-order", "indistinguishable-keys", "a map keyed by %v holds two distinct keys with the same content %s; every result that depends on their order depends on the runtime's map iteration order", typ, strs[idx[i]])
+					break
+				}
+			}
 			sorted := make([]K, len(keys))
 			for i, j := range idx {
 				sorted[i] = keys[j]
